@@ -40,6 +40,7 @@ CONSTANTS N1,                  \* size of the home LAN (net1 = 0..N1-1)
                                \*   "selfree"   a select on a free lease is answered with NAK
                                \*   "stale"     a free lease forgets its stale offer
                                \*   "shadow"    findByIP skips free leases (they keep their last address)
+                               \*   "net2edge"  the loader does not attach net2's own network / broadcast address to net2
 
 VARIABLES lease,     \* CIDs -> Nil | [st, mac, ip, offer, xid, net, exp]      Handler.table
           next,      \* {1,2} -> address                                       dhcpSubnet.nextIP
@@ -229,7 +230,8 @@ LoadOpS(F, me) == [j \in CIDs |->
    IF \E r \in F : r.k = j /\ InNet(1, r.ip)
    THEN LET r == CHOOSE x \in F : x.k = j /\ InNet(1, x.ip)
         IN [st |-> "allocated", mac |-> r.mac, ip |-> r.ip, offer |-> NoA, xid |-> r.xid,
-            net |-> IF IsCap(me, r.mac) /\ InNet(2, r.ip) THEN 2 ELSE 1, exp |-> TRUE]     \* net2 only for a captured MAC with a net2 address
+            net |-> IF IsCap(me, r.mac) /\ InNet(2, r.ip) /\ ("net2edge" \in Fixed => r.ip \notin {Lo(2), Hi(2)}) THEN 2 ELSE 1,
+            exp |-> TRUE]     \* net2 only for a captured MAC with a net2 address
    ELSE Nil]
 LoadOp(F) == LoadOpS(F, InitMent)
 
@@ -298,7 +300,8 @@ Guards(e, r, A, O, h0, cap) ==
 \* C18: a correct renewal of a binding that is still acknowledged is acknowledged (in particular after a restart)
 RenewDue(e, A) == e.kind = "request" /\ e.op = "renewing" /\ e.reff # NoA /\ A[e.k] # Nil /\ A[e.k].ip = e.reff
 
-\* observational cause of a failing reply: the named deviation (known-finding keys are <guard>:<cause>)
+\* observational cause of a failing reply: the named deviation (known-finding keys are <guard>:<cause>).
+\* A deviation whose fix the code under test contains (constant Fixed) cannot be the cause any more.
 Cause(g, e, r, A, O, h0) ==
   LET k    == e.k
       a    == r.yi
@@ -309,32 +312,36 @@ Cause(g, e, r, A, O, h0) ==
      THEN (IF g = "C12_Mask" /\ r.mask \in {1, 2} /\ ~r.mbr /\ e.prl = "rm"
            THEN "KF_PRLRouterFirst"       \* the client's parameter request list puts the router before the mask
            ELSE "none")
-     ELSE IF g \in {"C11_NoDoubleAck", "C11_NoOfferOfAcked"} /\ a # NoA
+     ELSE IF "shadow" \notin Fixed /\ g \in {"C11_NoDoubleAck", "C11_NoOfferOfAcked"} /\ a # NoA
              /\ \E j \in CIDs \ Holders(e, r, A) : \E b \in O[j].ever : b.ip = a
      THEN "KF_StaleLeaseShadows"      \* an ended lease keeps its address; findByIP returns the first match in map order,
                                       \* so the stale free lease can hide the lease that holds the address now
-     ELSE IF conflict /\ a # NoA /\ (\/ (e.kind = "discover" /\ O[k].offer = a /\ O[k].old /\ AIp(A, k) # a /\ ~O[k].lx)   \* never acknowledged: the tick freed it
-                                     \/ (e.kind = "discover" /\ O[k].offer # a /\ a \in O[k].offd /\ AIp(A, k) # a /\ O[k].last # a)
-                                     \/ a \in O[k].stl
-                                     \/ \E j \in Holders(e, r, A) : a \in O[j].stl)
+     ELSE IF "stale" \notin Fixed /\ conflict /\ a # NoA
+             /\ (   (e.kind = "discover" /\ O[k].offer = a /\ O[k].old /\ AIp(A, k) # a /\ ~O[k].lx)   \* never acknowledged: the tick freed it
+                  \/ (e.kind = "discover" /\ O[k].offer # a /\ a \in O[k].offd /\ AIp(A, k) # a /\ O[k].last # a)
+                  \/ (a \in O[k].stl)
+                  \/ (\E j1 \in Holders(e, r, A) : a \in O[j1].stl) )
      THEN "KF_StaleOfferKept"         \* a freed lease re-offers its expired offer without any check
-     ELSE IF conflict /\ a # NoA /\ (\/ a \in O[k].dup
-                                     \/ \E j \in Holders(e, r, A) : a \in O[j].dup
-                                     \/ (r.t = "offer" /\ (~had \/ (O[k].offer = a /\ O[k].old)) /\ \E j \in CIDs \ {k} : O[j].offer = a /\ ~(O[j].old /\ ~O[j].lx)))
+     ELSE IF "offers" \notin Fixed /\ conflict /\ a # NoA
+             /\ (   (a \in O[k].dup)
+                  \/ (\E j2 \in Holders(e, r, A) : a \in O[j2].dup)
+                  \/ (r.t = "offer" /\ (~had \/ (O[k].offer = a /\ O[k].old))
+                         /\ (\E j3 \in CIDs \ {k} : O[j3].offer = a /\ ~(O[j3].old /\ ~O[j3].lx))) )
      THEN "KF_OfferNotReserved"       \* handed out while a fresh OFFER of it to another client was outstanding
      ELSE IF g = "C11_NotOthersTracked" /\ had
      THEN "KF_SessionNotRechecked"    \* re-offer / re-acknowledgement of k's address does not consult the session again
-     ELSE IF g = "C11_NotReserved" /\ a = Net2Lo /\ a # 0 /\ had
+     ELSE IF "net2edge" \notin Fixed /\ g = "C11_NotReserved" /\ a = Net2Lo /\ a # 0 /\ had
      THEN "KF_Net2NetworkAddrKept"    \* the netfilter subnet's network address is an ordinary host address of the home LAN: a client
                                       \* that holds it keeps it when it is captured and the lease is re-attached to net2 (reload)
      ELSE IF g = "C11_NotReserved" /\ a \in {HostA, RouterA}
      THEN "KF_ReservedBySessionOnly"  \* our / the router's address is protected by the session's host entry only (and only
                                       \* at allocation time): it got out while the session did not track it for its owner
-     ELSE IF e.kind = "request" /\ e.sid = "us" /\ r.t = "ack" /\ ~lease0 /\ (O[k].offer = NoA \/ O[k].old \/ O[k].void)
+     ELSE IF "selfree" \notin Fixed /\ e.kind = "request" /\ e.sid = "us" /\ r.t = "ack" /\ ~lease0 /\ (O[k].offer = NoA \/ O[k].old \/ O[k].void)
      THEN "KF_SelectOnFreeLease"      \* a select is acknowledged although k holds neither a live offer nor a lease of that address
-     ELSE IF a # NoA /\ (\/ (e.kind = "discover" /\ e.rdisc = a /\ ~had)
-                         \/ a \in O[k].req
-                         \/ \E j \in Holders(e, r, A) : a \in O[j].req)
+     ELSE IF "reqrange" \notin Fixed /\ a # NoA
+             /\ (   (e.kind = "discover" /\ e.rdisc = a /\ ~had)
+                  \/ (a \in O[k].req)
+                  \/ (\E j4 \in Holders(e, r, A) : a \in O[j4].req) )
      THEN "KF_RequestedIPUnchecked"   \* the address came in through the requested-address shortcut of allocIPOffer
      ELSE "none"
 
